@@ -406,10 +406,11 @@ def run(ctx):
                   "%s::isValidPayload marks payloads invalid for a reason the protocol does not give: %s" % (cls, badv))
     rule_reported_length(fb, res)
     # ---- R5 positions
-    obs, _ = accessors.analyse(fb, ctx.spec("layout.json"))
+    obs, ast = accessors.analyse(fb, ctx.spec("layout.json"), scope=lambda cls, stem: cls in (CH, MH))
     for o in obs:
         if o.cls in (CH, MH) and o.tag == "position" and "::get" in o.key:
             res.check(o.ok, "C04-R5", o.key, o.loc, o.detail)
+    accessors.require_supported(ast)
     res.floor("C04-R1", 18)
     res.floor("C04-R2", 2)
     res.floor("C04-R3", 17)
